@@ -1,0 +1,40 @@
+//go:build verif
+
+// Contracts for package memcache, checked by /verif/bin/govc (see /verif/DESIGN.md).
+package memcache
+
+// The backend's abstract map is the Go map c.store itself (key -> byte slice); values are
+// compared element by element. notExist(err): err satisfies errors.Is(err, driver.ErrNotExist).
+//@ spec func sameBytes(a []byte, b []byte) bool = len(a) == len(b) && (forall i int :: 0 <= i && i < len(a) ==> a[i] == b[i])
+
+//@ func Open
+//@   property C14
+//@   fresh
+//@   ensures result != nil && result.store != nil                                          # name: non-nil
+//@   ensures forall k string :: !has(result.store, k)                                      # name: empty
+
+//@ func (*memCache).Set
+//@   property C14 C16
+//@   requires c != nil && c.store != nil && lockHeld[&c.mu] == 0
+//@   assigns map(c.store), lockHeld[&c.mu]
+//@   ensures result == nil                                                                 # name: never-fails
+//@   ensures has(c.store, key) && sameBytes(get(c.store, key), value)                      # name: stores-the-bytes
+//@   ensures fresh(get(c.store, key))                                                      # name: isolated-from-callers-buffer
+//@   ensures mapUpdated(c.store, key, get(c.store, key))                                   # name: other-keys-untouched
+//@   ensures lockHeld[&c.mu] == old(lockHeld[&c.mu])                                       # name: lock-released   props: C16
+
+//@ func (*memCache).Get
+//@   property C14 C16
+//@   requires c != nil && lockHeld[&c.mu] == 0
+//@   assigns lockHeld[&c.mu]
+//@   ensures has(c.store, key) ==> result1 == nil && sameBytes(result0, get(c.store, key)) && (len(result0) > 0 ==> fresh(result0))   # name: returns-a-copy-of-the-stored-bytes
+//@   ensures !has(c.store, key) ==> result1 != nil && notExist(result1) && len(result0) == 0      # name: absent-is-not-exist
+//@   ensures lockHeld[&c.mu] == old(lockHeld[&c.mu])                                       # name: lock-released   props: C16
+
+//@ func (*memCache).Delete
+//@   property C14 C16
+//@   requires c != nil && lockHeld[&c.mu] == 0
+//@   assigns map(c.store), lockHeld[&c.mu]
+//@   ensures old(has(c.store, key)) ==> result == nil && mapRemoved(c.store, key)         # name: removes-only-that-key
+//@   ensures !old(has(c.store, key)) ==> result != nil && notExist(result) && mapUnchanged(c.store)   # name: absent-is-not-exist
+//@   ensures lockHeld[&c.mu] == old(lockHeld[&c.mu])                                       # name: lock-released   props: C16
